@@ -155,13 +155,13 @@ fn run(ctx: &mut Ctx) {
 
     let total = ctx.tier.pick(30_000, 600_000);
     let max_ops = ctx.tier.pick(5, 10);
-    let strat = move || case_strategy(&["repeat", "abc", "abc", "digits", "meta", "marks", "boundary", "clusters", "cased", "lookalike"], true, W_REPEAT, max_ops, 7, fix);
+    let strat = move || case_strategy(&["repeat", "abc", "abc", "digits", "meta", "marks", "boundary", "clusters", "cased", "lookalike", "metamod"], true, W_REPEAT, max_ops, 7, fix);
     ctx.generated("gen", &strat, total, &|s, c, st| {
         count_pool(c, st);
         case_fn(s, c, st)
     });
     let total_large = ctx.tier.pick(5000, 100000);
-    let strat_large = move || case_strategy_large(&["repeat", "abc", "abc", "digits", "meta", "marks", "boundary", "clusters", "cased", "lookalike"], W_REPEAT, fix);
+    let strat_large = move || case_strategy_large(&["repeat", "abc", "abc", "digits", "meta", "marks", "boundary", "clusters", "cased", "lookalike", "metamod"], W_REPEAT, fix);
     ctx.generated("gen-large", &strat_large, total_large, &|s, c, st| {
         count_pool(c, st);
         case_fn(s, c, st)
